@@ -40,7 +40,12 @@ ALTS: dict[str, list[str]] = {
 }
 
 
-def plans_for(f: Any, rng: random.Random, depth2: int) -> list[list[tuple[int, str, str]]]:
+INVALID: dict[str, list[str]] = {       # raw texts the token type cannot represent: the assignment must be refused
+    'DATE': ['xxxx', '2000-13-45'], 'NUMBER': ['abc'], 'BOOL': ['MAYBE'], 'BLOCK_COMMENT': ['no semicolon'],
+}
+
+
+def plans_for(f: Any, rng: random.Random, depth2: int, only_invalid: bool = False) -> list[list[tuple[int, str, str]]]:
     toks = list(f.token_store)
     singles = []
     for i, t in enumerate(toks):
@@ -53,6 +58,15 @@ def plans_for(f: Any, rng: random.Random, depth2: int) -> list[list[tuple[int, s
             singles.append((i, 'raw', alt))
             if hasattr(type(t), 'value') and not isinstance(t, models.Indent):
                 singles.append((i, 'value', alt))
+    valid = list(singles)
+    inv = []
+    for i, t in enumerate(toks):
+        for alt in INVALID.get(t.RULE, []):
+            inv.append((i, 'raw', alt))
+    if only_invalid:
+        # refusals at every point of a short history: directly, and after one accepted assignment
+        return [[x] for x in inv] + [[rng.choice(valid), x] for x in inv if valid]
+    singles = singles + inv
     out = [[s] for s in singles]
     if depth2 and len(singles) >= 2:
         for _ in range(depth2):
@@ -65,7 +79,8 @@ def plans_for(f: Any, rng: random.Random, depth2: int) -> list[list[tuple[int, s
 def _chunk(arg: tuple) -> tuple[int, int, list, list]:
     from vlib import storerec
     from checks import store_replay
-    seed, flavors, docs, depth2 = arg
+    seed, flavors, docs, depth2 = arg[:4]
+    only_invalid = len(arg) > 4 and arg[4]
     rng = random.Random(seed)
     rec = storerec.Recorder()
     rec.install()
@@ -82,7 +97,7 @@ def _chunk(arg: tuple) -> tuple[int, int, list, list]:
                 if len(f0.token_store) > storerec.MAX_ROW:
                     continue
                 n_docs += 1
-                for plan in plans_for(f0, rng, depth2):
+                for plan in plans_for(f0, rng, depth2, only_invalid):
                     store_replay.set_load_factor([2, 3, 1000, 4][(k + len(plan)) % 4])
                     f = tree.parse(text)
                     store = f.token_store
@@ -108,8 +123,7 @@ def _chunk(arg: tuple) -> tuple[int, int, list, list]:
     return n_docs, n_assign, traces, value_bad
 
 
-def main(prop: str, tier: str) -> int:
-    rep = common.Reporter(prop, tier)
+def core(prop: str, tier: str, rep: common.Reporter) -> dict:
     seed = common.seed()
     if tier == 'quick':
         docs, r = doclib.layouts(max_lines=2, eols=('lf', 'crlf'), accepted_only=True)
@@ -132,7 +146,7 @@ def main(prop: str, tier: str) -> int:
     n_docs = n_assign = 0
     traces: list = []
     with mp.Pool(16) as pool:
-        jobs = [(seed + j, flavors, ch, depth2) for j, ch in enumerate(common.chunked(docs, 12))]
+        jobs = [(seed + j, flavors, ch, depth2, prop == 'C19') for j, ch in enumerate(common.chunked(docs, 12))]
         for nd, na, tr, vb in pool.imap_unordered(_chunk, jobs):
             n_docs += nd
             n_assign += na
@@ -144,7 +158,7 @@ def main(prop: str, tier: str) -> int:
     for e in tv['errors']:
         rep.machinery_error(f'trace validation: {e}')
     mine = {'C02': {'row', 'len', 'firstlast', 'other-token-text', 'assigned-text', 'nextprev'},
-            'C08': {'position', 'index'}}[prop]
+            'C08': {'position', 'index'}, 'C19': {'refused-assign-changed-text'}}[prop]
     for ti, step, clause in tv['rejected']:
         ev = traces[ti]['events'][step - 1] if step else {}
         if clause in mine or clause.startswith('raised-'):
@@ -160,7 +174,7 @@ def main(prop: str, tier: str) -> int:
     if victims:
         c = json.loads(json.dumps(victims))
         for t in c:
-            if prop == 'C02':
+            if prop in ('C02', 'C19'):
                 t['events'][-1]['txt'][0] += 1000 if t['events'][-1]['row'][0] != t['events'][-1]['r'] else 0
                 t['events'][-1]['txt'][-1] += 1000 if t['events'][-1]['row'][-1] != t['events'][-1]['r'] else 0
             else:
@@ -169,7 +183,7 @@ def main(prop: str, tier: str) -> int:
         sens['corrupted_traces_rejected'] = f'{len(cv["rejected"])}/{len(c)}'
         if len(cv['rejected']) != len(c):
             rep.machinery_error('sensitivity: a corrupted trace was accepted')
-    rep.cov.update({
+    cov = {
         'states': tv['tlc_states'] + r.distinct + r3.distinct, 'transitions': tv['tlc_transitions'] + r.generated + r3.generated,
         'traces_validated_against_impl': tv['accepted'] + len(tv['rejected']),
         'documents': n_docs, 'assignments': n_assign, 'recorded_events': tv['events'], 'sensitivity': sens,
@@ -177,7 +191,19 @@ def main(prop: str, tier: str) -> int:
         'rule': 'every token of every Layout document (per-kind replacement texts: same width, wider, narrower, '
                 'adding / removing line breaks; via value and via raw_text), plus random sequences of 2-3 assignments; '
                 'load factor rotated over 2, 3, 4 and the default',
-    })
+    }
+    return cov
+
+
+def refusal_part(rep: common.Reporter, tier: str) -> dict:
+    c = core('C19', 'quick', rep)
+    return {'states': c['states'], 'transitions': c['transitions'], 'behaviours': c['traces_validated_against_impl'],
+            'assignments': c['assignments']}
+
+
+def main(prop: str, tier: str) -> int:
+    rep = common.Reporter(prop, tier)
+    rep.cov.update(core(prop, tier, rep))
     rep.assumptions += ['replacement texts are a few representatives per token kind',
                         'documents with more than 48 tokens are not recorded']
     return rep.finish()
